@@ -16,7 +16,27 @@ for name in sorted(os.listdir(os.path.join(V, 'seeded'))):
         summ = summ[:227] + '...'
     hist = ' **' + m['history'].split('.')[0].replace('|', '/') + '.**' if m.get('history') else ''
     rows.append('| `%s` | %s | %s | %s%s |' % (name, m.get('breaks_property'), summ, verdicts, hist))
+n_hist = sum(1 for r in rows if '**' in r)
+by_round = {}
+for name in sorted(os.listdir(os.path.join(V, 'seeded'))):
+    mm = re.match(r'C\d\d([a-z]?)-', name)
+    if mm:
+        rnd = ' abcdefgh'.index(mm.group(1)) if mm.group(1) else 1
+        m = json.load(open(os.path.join(V, 'seeded', name, 'meta.json')))
+        first_missed = 'first run' in (m.get('history') or '') or \
+            'was missed' in (m.get('history') or '')
+        by_round.setdefault(rnd, [0, 0])
+        by_round[rnd][0] += 1
+        by_round[rnd][1] += bool(first_missed)
+summary = '; '.join('round %d: %d first missed of %d' % (r, k, n)
+                    for r, (n, k) in sorted(by_round.items()))
 section = ['### 9.6 Independently written breaking changes (`seeded/`)', '',
+ '%d changes in all. First missed by the check of the named property: %s.' % (len(rows), summary),
+ 'Every first miss of the named property led to a stronger generator or',
+ 'oracle, after which the change is caught (`tools/reseed.py` re-applies every patch to a scratch',
+ 'worktree of the current HEAD and re-runs the named check); the exceptions, where the named check does',
+ 'not apply and a neighbouring property\'s check catches the change, or where the change is not caught,',
+ 'are said so in the bold note of their row.', '',
  'Each change was written by a fresh sub-agent that saw only the property text and a scratch git',
  'worktree of the repository (nothing from /verif). Every entry was confirmed by `tools/seeded.py`:',
  'the author\'s `demo.py` exits 1 with the change and 0 without it, the pinned suite still passes with',
